@@ -134,7 +134,7 @@ func TestC05Histories(t *testing.T) {
 					nt = 3
 				}
 			}
-			return model.Op{K: "regnode", N: id, NT: nt, Pol: rapid.SampledFrom([]int{0, 0, 0, 0, 1, 2, 3}).Draw(t, "pol"),
+			return model.Op{K: "regnode", N: id, NT: nt, Pol: rapid.SampledFrom([]int{0, 0, 0, 0, 1, 2, 3}).Draw(t, "pol"), Dress: rapid.SampledFrom([]int{0, 0, 0, 1, 2, 3}).Draw(t, "dress"),
 				Shape: rapid.SampledFrom([]int{0, 0, 0, 1, 2, 3}).Draw(t, "shape"), Reuse: rapid.IntRange(0, 7).Draw(t, "reuse") == 0,
 				CloseErr: rapid.IntRange(0, 5).Draw(t, "closeErr") == 0}
 		case 1:
@@ -146,7 +146,7 @@ func TestC05Histories(t *testing.T) {
 			}
 			ids := rapid.SliceOfN(rapid.SampledFrom([]string{"a", "b", "c", "d", "a", "b", "c", "d", "a", "b", "c", "d", "zz", ""}), 0, 5).Draw(t, "ids")
 			return model.Op{K: "regpipe", ET: rapid.SampledFrom([]string{"A", "A", "B", "B", "A", "B", ""}).Draw(t, "et"),
-				P: rapid.SampledFrom([]string{"p", "q", "r", "p", "q", "r", ""}).Draw(t, "p"), IDs: ids, Pol: rapid.SampledFrom([]int{0, 0, 0, 1, 2, 3}).Draw(t, "ppol")}
+				P: rapid.SampledFrom([]string{"p", "q", "r", "p", "q", "r", ""}).Draw(t, "p"), IDs: ids, Pol: rapid.SampledFrom([]int{0, 0, 0, 1, 2, 3}).Draw(t, "ppol"), Dress: rapid.SampledFrom([]int{0, 0, 0, 1, 2, 3}).Draw(t, "pdress")}
 		case 2:
 			return model.Op{K: "rmnode", N: rapid.SampledFrom([]string{"a", "b", "c", "d", "zz", ""}).Draw(t, "n"), CtxDone: rapid.IntRange(0, 3).Draw(t, "ctxDone") == 0}
 		case 3:
